@@ -248,3 +248,11 @@ Proof. exact CondMatcher.cond_reject_genuine. Qed.
 
 Print Assumptions C16_matcher_sound.
 Print Assumptions C16_matcher_rejections_genuine.
+
+(* Tie to the source: the Go functions the model transcribes still contain exactly the synchronisation operations
+   (select arms, channel operations, goroutine starts, timer/context/sync calls) the model accounts for.
+   Generated/Census.v is re-extracted from the Go source on every run (tools/gofacts/census.go). *)
+From Juniper Require Translated.CensusC16.
+Theorem C16_source_census : Translated.CensusC16.census_expected_C16.
+Proof. exact Translated.CensusC16.census_C16_ok. Qed.
+Print Assumptions C16_source_census.
